@@ -149,10 +149,13 @@ func c05Build(s c05Spec, ops []c05Operand) *progCase {
 	if s.Form == "incdec" && s.Mode == 0 {
 		return nil
 	}
+	if s.Form == "cond" && s.Mode == 3 {
+		return nil
+	}
 	var e Expr
 	var post []Stmt
 	switch s.Form {
-	case "bin":
+	case "bin", "cond":
 		e = Bin(s.Op, le, re)
 	case "short":
 		// right operand wrapped in a tracing call: shows whether it was evaluated
@@ -171,6 +174,16 @@ func c05Build(s c05Spec, ops []c05Operand) *progCase {
 	}
 	body := append(pre, Ex(Asg("=", V("r"), e)), c05Show(V("r")))
 	body = append(body, post...)
+	if s.Form == "cond" {
+		// the same expression where a condition stands: if, while, the test of a for, a leg of && / || / !, a rule pattern
+		body = append(append([]Stmt{}, pre...),
+			&If{Cond: e, Then: Blk(Pr(S("if: yes"))), Else: Blk(Pr(S("if: no")))},
+			&While{Cond: Bin(s.Op, le, re), Body: Blk(Pr(S("while: yes")), &Break{})},
+			&For{Init: Asg("=", V("k"), N("0")), Cond: Bin("&&", Bin("<", V("k"), N("1")), Bin(s.Op, le, re)), Post: &Postfix{Op: "++", X: V("k")}, Body: Blk(Pr(S("for: yes")))},
+			&If{Cond: Un("!", Bin(s.Op, le, re)), Then: Blk(Pr(S("not: yes")))},
+			&If{Cond: Bin("||", &BoolLit{B: false}, Bin(s.Op, le, re)), Then: Blk(Pr(S("or: yes")))},
+		)
+	}
 	p := &Program{Funcs: []*Func{c05Fn, c05Side}}
 	if s.Mode == 3 {
 		// the operands arrive as parameters of a user function and the operator is applied there
@@ -215,6 +228,9 @@ func c05Build(s c05Spec, ops []c05Operand) *progCase {
 	}
 	if s.Mode == 2 {
 		p.Rules = []*Rule{{Body: Blk(body...)}}
+		if s.Form == "cond" {
+			p.Rules = append(p.Rules, &Rule{Pattern: Bin(s.Op, le, re), Body: Blk(Pr(S("pattern: yes")))})
+		}
 	} else {
 		p.Rules = []*Rule{{Kind: "BEGIN", Body: Blk(body...)}}
 	}
@@ -547,7 +563,7 @@ func c05Kind(o c05Operand) string {
 func init() {
 	fw.Register(addTok(tokFramesC05, &fw.Prop{
 		ID: "C05",
-		Rule: "every binary operator x every ordered pair of the operand alphabet x four supply modes (literal, variables, document fields, parameters of a user function that applies the operator); every unary operator, ++/-- in both positions, `is` x 10 type names, " +
+		Rule: "every binary operator x every ordered pair of the operand alphabet x four supply modes (literal, variables, document fields, parameters of a user function that applies the operator); every binary operator also where a condition stands (if, while, the test of a for, under ! and ||, a rule pattern); every unary operator, ++/-- in both positions, `is` x 10 type names, " +
 			"short-circuit probes with a tracing call, and every operator as ONE expression site evaluated over the whole sequence of operand pairs (forward and reversed, ending in a failing pair); tracing calls in every operand position of every operator and composite form incl. 8-key object literals (order and extent of evaluation); a number in a variable / member / array cell / document field with every derived form (string form in + and ~, rendering, JSON text, arithmetic, comparison) taken before and after each ordered pair of 10 ways to change it; every string d.dd / dd.dd as a number; a state is a table cell (form, operator, left kind, right kind, outcome); non-trivial = cells whose model result is a value; numeric results are compared as doubles",
 		Plan: func(t fw.Tier) int { return len(c05Operands(t == fw.Thorough)) + 1 },
 		Bound: func(t fw.Tier) string {
@@ -601,6 +617,9 @@ func init() {
 				for r := range ops {
 					for _, op := range c05BinOps {
 						do(c05Spec{Form: "bin", Op: op, L: u, R: r, Mode: mode})
+						if op != "&&" && op != "||" {
+							do(c05Spec{Form: "cond", Op: op, L: u, R: r, Mode: mode})
+						}
 					}
 					for _, op := range []string{"&&", "||"} {
 						do(c05Spec{Form: "short", Op: op, L: u, R: r, Mode: mode})
